@@ -43,6 +43,7 @@ func init() {
 	probes["O31"] = probeO31
 	probes["O32"] = probeO32
 	probes["O33"] = probeO33
+	probes["O34"] = probeO34
 	probes["O23"] = probeO23
 	probes["O24"] = probeO24
 }
@@ -518,5 +519,23 @@ func probeO33() (bool, string) {
 		}{S: &sl}
 		err := c.Unpack(&t)
 		return err != nil, fmt.Sprint(err)
+	})
+}
+
+func probeO34() (bool, string) {
+	return guard(func() (bool, string) {
+		c, _ := ucfg.NewFrom(map[string]interface{}{"x": 1})
+		three, neg, empty := 3, -3, ""
+		t := struct {
+			X int
+			A *int    `config:"a" validate:"min=5"`
+			B *int    `config:"b" validate:"positive"`
+			C *string `config:"c" validate:"nonzero"`
+		}{A: &three}
+		t2, t3 := t, t
+		t2.A, t2.B = nil, &neg
+		t3.A, t3.C = nil, &empty
+		e1, e2, e3 := c.Unpack(&t), c.Unpack(&t2), c.Unpack(&t3)
+		return e1 == nil || e2 == nil || e3 == nil, fmt.Sprint(e1, " / ", e2, " / ", e3)
 	})
 }
